@@ -66,6 +66,9 @@ def build_config(sc, **over):
                      "perturbation_magnitudes": MAGNITUDE, "merge_realizations": bool(sc["merged"])},
         "samplers": [{"method": "rvdesign/design", "shared": bool(sc.get("shared", False))}],
     }
+    if sc.get("nsamp", 1) == 2:       # two samplers assigned to disjoint variable sets (variable 2 to the second one)
+        cfg["samplers"] = cfg["samplers"] * 2
+        cfg["gradient"]["samplers"] = [0, 1, 0][: sc["V"]]
     for k, v in over.items():
         cfg[k] = {**cfg.get(k, {}), **v}
     return EnOptConfig.model_validate(cfg)
@@ -155,6 +158,13 @@ def eval_grad(sc, mode="both"):
     cols = [[int(round(float(a[r, f] @ x + b[r, f]))) for r in range(sc["R"])] for f in range(3)]
     if mode == "both":
         res, outcome = outcome_of(lambda: ee.calculate(x, compute_functions=True, compute_gradients=True))
+    elif mode == "near":
+        # functions at a point a few ppm away, then a gradient-only request at x: nothing kept from the
+        # other point may be used (the function values at x differ from those at the nearby point)
+        def near():
+            ee.calculate(x * (1 + 4e-6) + 3e-6, compute_functions=True, compute_gradients=False)
+            return ee.calculate(x, compute_functions=False, compute_gradients=True)
+        res, outcome = outcome_of(near)
     else:
         def split():
             f = ee.calculate(x, compute_functions=True, compute_gradients=False)
